@@ -313,6 +313,30 @@ def sendMessage (s : Side) (maxBodySize : Nat) (seq : Int) (mt : Bytes) (chan to
     { msgType := mt, channelID := chan, tokenID := tok, seq := r.2.toNat, requestID := req } body
   sendLoop s r.1 true raws
 
+/-- the messages of a session, sent one after the other over the same channel
+    instance (the sequence counter threads through); the result is the flat
+    stream of chunks on the wire -/
+def sendSession (S : Side) (maxBody : Nat) (chan tok : Nat) : Int → List (Nat × Bytes) → Int × Res (List Bytes)
+  | seq, [] => (seq, .ok [])
+  | seq, m :: ms =>
+    match sendMessage S maxBody seq typeMSG chan tok m.1 m.2 with
+    | (sq, .ok ws) =>
+      match sendSession S maxBody chan tok sq ms with
+      | (sq', .ok rest) => (sq', .ok (ws ++ rest))
+      | (sq', .err) => (sq', .err)
+      | (sq', .panic) => (sq', .panic)
+    | (sq, .err) => (sq, .err)
+    | (sq, .panic) => (sq, .panic)
+
+/-- `Receive` called again and again on the stream of chunks (fuel = number of chunks) -/
+def receiveMany (insts : Nat → List Side) (lim : Limits) : Nat → Table → List Bytes → List (Res MsgOut)
+  | 0, _, _ => []
+  | _ + 1, _, [] => []
+  | f + 1, t, w :: ws =>
+    match receiveAll insts lim t (w :: ws) with
+    | (t', some r, rest) => r :: receiveMany insts lim f t' rest
+    | (_, none, _) => []
+
 /-- the numbers `uapolicy.Asymmetric(uri, localKey, remoteKey)` reports for key
     sizes `localSize`, `remoteSize` (bytes) and the policy's plaintext overhead
     `pad` per cipher block (`plainttextBlockSize: remoteKeySize - pad`); the C07
